@@ -1,8 +1,110 @@
 """C14 - positions mean the same to server and client.
 Spec: Positions.tla.  MC: reference theorems on all documents <= n.  GEN: every reachable document with its
 boundary table is replayed into glas' LineMap (line_col_for_pos, pos_for_line_col, from_pos, to_range)."""
-import json, os
-import vlib
+import json, os, shutil, time
+import vlib, lsp
+
+TABLES = [["a", "ß", "ℝ", "💣"], ["z", "é", "中", "𝒳"], ["q", "\u0080", "ࠀ", "\U00010000"], ["k", "߿", "￿", "\U0010ffff"], ["e", "\u00a0", "\ufeff", "\U0001f600"]]
+OFFERS = [None, ["utf-8", "utf-16"], ["utf-32", "utf-16"], ["utf-16"]]
+
+
+def render(units, tab):
+    m = {"a": tab[0], "nl": "\n", "c2": tab[1], "c3": tab[2], "c4": tab[3]}
+    return "".join(m[u] for u in units)
+
+
+def expected_ranges(case):
+    tab = case["tab"]
+    return sorted(((tab[i]["l"], tab[i]["c"]), (tab[j]["l"], tab[j]["c"])) for i, j in case["toks"])
+
+
+def diagnostics_after(sess, uri, n_seen, timeout=10.0):
+    """the next publishDiagnostics for uri after the first n_seen notifications"""
+    t0 = time.time()
+    while time.time() - t0 < timeout:
+        with sess.cv:
+            ns = list(sess.notifications)
+        for k in range(n_seen, len(ns)):
+            n = ns[k]
+            if n.get("method") == "textDocument/publishDiagnostics" and n["params"]["uri"] == uri:
+                return k + 1, sorted(((d["range"]["start"]["line"], d["range"]["start"]["character"]),
+                                      (d["range"]["end"]["line"], d["range"]["end"]["character"])) for d in n["params"]["diagnostics"])
+        time.sleep(0.01)
+    return n_seen, None
+
+
+def end_to_end(out, by_enc, seed, n_docs):
+    """black box: each document is opened as a module whose every token is a syntax error; the ranges of the published
+    diagnostics must be the token boundaries as the CLIENT numbers them in the encoding the session agreed on; then one
+    character is typed at the very start (an incremental change) and the same must hold for the new document"""
+    base = vlib.workdir("c14-e2e")
+    n = 0
+    for oi, offer in enumerate(OFFERS):
+        root = os.path.join(base, f"s{oi}")
+        os.makedirs(os.path.join(root, "src"))
+        open(os.path.join(root, "gleam.toml"), "w").write('name = "p"\nversion = "0.1.0"\n')
+        sess = lsp.Session(root, stderr_path=os.path.join(root, "stderr.log"))
+        try:
+            if sess.initialize(encodings=offer) is None:
+                raise vlib.ToolError("server did not answer initialize")
+            if sess.enc not in (offer or ["utf-16"]) or sess.enc not in by_enc:
+                out.report({"what": "server announced a position encoding the client did not offer", "level": "server"}, {"offered": offer, "announced": sess.enc_announced})
+                continue
+            table = by_enc[sess.enc]
+            keys = sorted(table)
+            import random
+            rnd = random.Random(seed * 31 + oi)
+            short = [k for k in keys if len(json.loads(k)) <= 2]
+            picks = rnd.sample(keys, min(n_docs, len(keys))) + rnd.sample(short, min(n_docs // 3, len(short)))
+            for k, key in enumerate(picks):
+                case = table[key]
+                if not case["toks"]:
+                    continue
+                tab = TABLES[(seed + k) % len(TABLES)]
+                path = os.path.join(root, "src", f"d{k}.gleam")
+                text = render(case["doc"], tab)
+                open(path, "w").write(text)
+                with sess.cv:
+                    seen = len(sess.notifications)
+                sess.did_open(path, text)
+                seen, got = diagnostics_after(sess, lsp.uri(path), seen)
+                exp = expected_ranges(case)
+                n += 1
+                bad = None
+                if got != exp:
+                    bad = {"step": "didOpen", "expected": exp, "got": got}
+                else:
+                    # type one character at the start: the table of the longer document must hold afterwards
+                    u = ["c3", "a", "c4", "nl", "c2"][(seed + k) % 5]
+                    key2 = json.dumps([u] + case["doc"])
+                    if key2 in table and table[key2]["toks"]:
+                        sess.did_change(path, [{"range": {"start": {"line": 0, "character": 0}, "end": {"line": 0, "character": 0}}, "text": render([u], tab)}], 2)
+                        seen, got2 = diagnostics_after(sess, lsp.uri(path), seen)
+                        exp2 = expected_ranges(table[key2])
+                        n += 1
+                        if got2 != exp2:
+                            bad = {"step": "didChange (one character typed at the start)", "expected": exp2, "got": got2, "typed": u}
+                        # ... and one notification with two changes, the second addressed in the text the first one leaves:
+                        # a line break at the very start, then a character at the start of what is now the second line
+                        key3 = json.dumps(["nl", "a", u] + case["doc"])
+                        if bad is None and key3 in table:
+                            sess.did_change(path, [{"range": {"start": {"line": 0, "character": 0}, "end": {"line": 0, "character": 0}}, "text": "\n"},
+                                                   {"range": {"start": {"line": 1, "character": 0}, "end": {"line": 1, "character": 0}}, "text": tab[0]}], 3)
+                            seen, got3 = diagnostics_after(sess, lsp.uri(path), seen)
+                            exp3 = expected_ranges(table[key3])
+                            n += 1
+                            if got3 != exp3:
+                                bad = {"step": "didChange2 (two changes in one notification)", "expected": exp3, "got": got3}
+                if bad:
+                    out.report({"what": "published ranges are not the token boundaries in the client's numbering", "level": "server", "encoding": sess.enc, "step": bad["step"].split(" ")[0]},
+                               {"doc": case["doc"], "table": (seed + k) % len(TABLES), "offer": offer, "bad": bad, "e2e": True})
+                if not sess.alive():
+                    out.report({"what": "server died", "level": "server"}, {"doc": case["doc"], "e2e": True})
+                    break
+        finally:
+            sess.close()
+        shutil.rmtree(root, ignore_errors=True)
+    return n
 
 
 def replay_cases(out, cases, seed):
@@ -47,15 +149,30 @@ def run(out, tier, seed):
     if not long_cases:
         raise vlib.ToolError("simulation produced no long documents")
     replay_cases(out, long_cases, seed)
+    # end to end, in every encoding a session may agree on: the tables of all documents per encoding
+    by_enc = {"utf-16": {json.dumps(c["doc"]): c for c in cases}}
+    for enc in ("utf-8", "utf-32"):
+        r3 = vlib.tlc("Positions", cfg, workers=8, timeout=900, env={"POS_ENC": enc}, name="positions-" + enc)
+        vlib.require_ok(r3, "Positions " + enc)
+        out.add_tlc(r3, "MC+GEN exhaustive, columns in " + enc)
+        by_enc[enc] = {json.dumps(c["doc"]): c for c in r3.cases()}
+    ne = end_to_end(out, by_enc, seed, 60 if tier == "quick" else 600)
+    out.cov["traces_validated_against_impl"] += ne
     out.cov["exhaustive"] = True
     out.cov["rule"] = ("every document over {a,nl,c2,c3,c4} up to MaxLen (%s) enumerated by TLC with the client-side boundary "
                        "table; each replayed into LineMap at every boundary and every ordered pair of boundaries; "
-                       "non-trivial = contains a line feed or a multi-byte character; plus %d simulated documents of 600 chars"
+                       "non-trivial = contains a line feed or a multi-byte character; plus %d simulated documents of 600 chars; "
+                       "end to end: sampled documents opened on the real server in sessions that offer no / utf-8 / utf-32 / utf-16 position "
+                       "encodings - the ranges of the published diagnostics (one per token) must be the token boundaries of the table "
+                       "written for the agreed encoding, also after one character is typed at the start"
                        % (cfg, len(long_cases)))
     out.assumptions += ["harness rendering of character classes to concrete code points",
                         "TLC/SANY, Json module"]
 
 
 def replay(out, path):
-    case = json.load(open(path))["detail"]["case"]
-    replay_cases(out, [case], 1)
+    d = json.load(open(path))["detail"]
+    if d.get("e2e"):
+        run(out, "quick", 1)
+        return
+    replay_cases(out, [d["case"]], 1)
